@@ -36,7 +36,7 @@ add("C01", "simnet", "model-based property testing (Hypothesis-generated histori
 add("C05", "simnet", "model-based property testing (generated publisher interleavings; stream-framing, sequence-number and order invariants)",
     "Generated histories with bursts, maximum-size payloads, unwritable subscribers and clock jumps; after every round every byte "
     "stream parses into whole frames with msg_count 1,2,3,...; at the end per-sender order and pairwise receiver agreement are checked "
-    "on the received logs. Exploration level.", SIM_NOTE, "DESIGN.md 4 C05")
+    "on the received logs (failure notices about client publishes included). Slow readers are modelled (a write on a socket with a timeout hands over part of a frame and times out; blocking writes complete). Exploration level.", SIM_NOTE, "DESIGN.md 4 C05")
 add("C07", "simnet", "model-based property testing with fault injection (generated departures at generated protocol stages / byte offsets / write-side failures)",
     "Generated departures (DISCONNECT, FIN, RST, truncated frames, refusal, write-side discovery with EPIPE/ECONNRESET/delayed failure, "
     "injected failure at a byte offset) in generated service orders; monitors must see exactly one CLIENT_CLOSED per departed "
@@ -54,18 +54,18 @@ add("C19", "simnet", "model-based property testing (generated control/data histo
 add("C02", "simnet", "stateful property testing of the real Client against the real manager (probe-based delivered-set oracle) + exhaustive enumeration of the 3-type abstract state space",
     "Real pyrtma.Client on the simulated network; after every API call a probe publishes one message per type and the delivered set read "
     "from the client's connection must equal the reported subscribed set, exclude paused types, be unchanged by refused requests and be "
-    "restored after scoped contexts. The sub-domain (28 reachable abstract states over 3 types + ALL) x 9 operations x argument lists of "
+    "restored after scoped contexts (left normally or by an exception). Type ids are also mapped onto the ends of the defined range and of int32. The sub-domain (28 reachable abstract states over 3 types + ALL) x 9 operations x argument lists of "
     "<=3 entries is enumerated completely in both tiers; longer histories over 6 types are sampled. Exploration level.",
     SIM_NOTE + " The client's module-level socket/select/time names are substituted the same way.", "DESIGN.md 4 C02")
 add("C06", "simnet", "model-based property testing + exhaustive enumeration of connect pairs + generated id-churn + wire capture of the public entry points",
-    "Three-valued identity oracle on generated connect/disconnect histories; all 17424 ordered pairs of consecutive connects enumerated; "
+    "Three-valued identity oracle on generated connect/disconnect histories; all 17424 ordered pairs of consecutive connects and all 9984 triples around one name (second step a connect or a rename) enumerated; "
     ">=110 dynamic connects with churn and exhaustion of all 100 dynamic ids; Client.connect / client_context keyword arguments compared "
     "with the CONNECT/CONNECT_V2 frames on the wire and with CLIENT_INFO at a monitor. Exploration level.", SIM_NOTE, "DESIGN.md 4 C06")
 
 add("C18", "simnet", "property-based testing with an independent counting oracle (all-seeing logger monitor) over generated reporting intervals",
     "Generated intervals with 0/1/63/64/65/128/129/300 distinct types, counts up to 65535 (thorough), out-of-range types and destinations, "
     "module churn and three kinds of report steps; TIMING_MESSAGE and the aggregated MESSAGE_TRAFFIC sub-messages must equal the "
-    "monitor's own count in both directions. Exploration level.", SIM_NOTE, "DESIGN.md 4 C18")
+    "monitor's own count in both directions, also when a subscriber of the reports is outside the writable snapshot (the notices about the reports it misses are counted like any forwarded message). Exploration level.", SIM_NOTE, "DESIGN.md 4 C18")
 
 add("C03", "simnet", "model-based fuzzing with hostile-input generators (Hypothesis; failures bucketed by root cause) + exhaustive disconnect-offset table",
     "Generated hostile connections (header-field boundary values, impossible payload lengths, crafted/garbage control frames, non-ASCII "
@@ -77,7 +77,7 @@ add("C03", "simnet", "model-based fuzzing with hostile-input generators (Hypothe
 MSG_NOTE = ("Trusted base: ctypes, struct (float32 round trip), Hypothesis, the domain model in vlib/msgs.py written from the property text and "
             "tests/test_validators.py. Don't-cares (bool for ints, NaN for floats, '' for Char, exception types) are never asserted.")
 add("C09", "msgpbt", "property-based testing of every validator family with a domain model (soundness, completeness, atomicity via byte snapshots) + generated forests of disable blocks",
-    "Eleven independent Hypothesis campaigns (one per validator family + disable-validation forests) over core, hand-written and generated "
+    "Thirteen independent Hypothesis campaigns (one per validator family, disable-validation forests, and harness-scheduled threads / asyncio tasks / copied contexts around disable blocks) over core, hand-written and generated "
     "message classes: every assignment either reads back equal and touches only its field, or raises and leaves all bytes unchanged; "
     "out-of-domain values must raise at every position of a sequence; validation must be on after every exit from a disable block. "
     "Exploration level.", MSG_NOTE, "DESIGN.md 4 C09")
@@ -88,7 +88,7 @@ add("C10", "msgpbt", "round-trip property testing (bytes / dict / JSON / Message
 
 add("C08", "scripted-peer", "model-based property testing of Client.read_message against a reference reader on a real socket pair; exhaustive adjacency and disconnect-offset tables + generated scripts",
     "A real pyrtma.Client on socketpair()/loopback TCP reads scripted frame sequences (good, unsubscribed, ACK, unknown type, wrong size, "
-    "wrong version, zero length) with subscription changes between reads; a reference reader written from the documentation decides what "
+    "wrong version, zero length, an older-style local definition without a hash) with subscription changes between reads; a reference reader written from the documentation decides what "
     "each call must return or raise, byte-exactly; all ordered pairs/triples of frame kinds and every disconnect byte offset are "
     "enumerated, longer scripts are generated. Exploration level.",
     "Trusted base: the kernel's AF_UNIX/TCP stream sockets, the reference reader in checks/c08.py, Hypothesis. The client's _sock and "
@@ -96,7 +96,7 @@ add("C08", "scripted-peer", "model-based property testing of Client.read_message
 add("C17", "sched", "schedule-exploring property testing: harness-owned cooperative scheduler over the data logger's synchronisation operations (generated tapes + exhaustive DFS of small histories)",
     "The recording thread and the real writer thread run under a scheduler that picks the next runnable thread before every Event/Thread "
     "operation from a generated tape; histories of update/pause/resume/restart/stop with virtual time crossing flush and subdivision "
-    "deadlines; after stop the raw/JSON/quicklogger files must contain exactly the selected messages once, in order. All schedules of "
+    "deadlines, data-set configuration histories (add / update / remove before and between recordings) and selections mixing ALL_MESSAGE_TYPES with explicit, repeated and padded types; after stop the raw/JSON/quicklogger files must contain exactly the selected messages once, in order. All schedules of "
     "small histories are enumerated by DFS (thorough: every history of <= 4 updates with <= 2 flush deadlines). Exploration level.",
     "Trusted base: the scheduler shim replacing data_collection.threading/time (granularity = synchronisation operations, as the "
     "property states; races between plain field accesses inside one interval are not explored), the package's own QLReader for the "
@@ -108,16 +108,16 @@ DEF_NOTE = ("Trusted base: the program generator and its expectation model (vlib
             "order, lengths and kind.")
 add("C04", "defgen", "differential property testing of the four language outputs (generated definition closures; gcc/ctypes/node/MATLAB-interpreter signatures compared with each other and with the generator's expectation)",
     "Generated definition closures (covering family for all 26 native type names as scalar, array element and alias target + random programs with "
-    "aliases, nesting, arrays, signals, reuse, padding, import graphs) are compiled for real; ids, hashes, constants, field names/order/lengths/element "
+    "aliases, nesting, arrays, signals, reuse, padding, import graphs, operator-rich and inexact-division length expressions, control characters in strings, and a stream of near-miss programs that must be refused or agree) are compiled for real; ids, hashes, constants, field names/order/lengths/element "
     "types and gcc sizeof/offsetof vs ctypes vs recorded type_size vs MATLAB element sizes must agree. Exploration level.", DEF_NOTE, "DESIGN.md 4 C04")
 add("C15", "defgen", "grammar-based property testing: every generated well-formed closure must compile and load in Python, C (gcc), JavaScript (node) and the MATLAB interpreter; failures bucketed by (language, kind, construct class)",
-    "Generated well-formed programs over every documented construct, biased towards cross-file references; compile() must not raise, the Python "
+    "Generated well-formed programs over every documented construct (incl. expressions over more than ten constants, every arithmetic / bitwise operator, control characters in string constants), biased towards cross-file references; compile() must not raise, the Python "
     "module must import in a fresh interpreter and register every message, gcc must accept the header, node must import the module and every "
     "factory must return fresh objects with pairwise distinct array elements, the MATLAB script must only reference defined fields. "
     "Exploration level.", DEF_NOTE, "DESIGN.md 4 C15")
 add("C16", "defgen", "metamorphic property testing (compile twice in separate processes with different cwd / output dir / hash seed; combined-YAML round trip through the CLI; shipped core_defs.py vs fresh compilation, with generated one-token edits as sensitivity cases)",
     "Byte-identical outputs of repeated compilations, signature equality after recompiling NAME_combined.yaml through the command line, and AST + "
-    "signature equality of the shipped core_defs.py with a fresh compilation of the shipped YAML. Three open findings (combined YAML cannot express "
+    "signature equality of the shipped core_defs.py with a fresh compilation of the shipped YAML; sequences of name-re-using closures compiled in one process, compiler options in root and imported files, core-embedding closures and long type texts are part of the domain. Three open findings (combined YAML cannot express "
     "three cross-file constructs) are listed in KNOWN_FINDINGS.txt. Exploration level.", DEF_NOTE, "DESIGN.md 4 C16")
 
 PARSER_NOTE = ("Trusted base: the program generator with its by-construction expectation model and independent natural-layout model (vlib/defgen.py), "
@@ -126,17 +126,17 @@ add("C11", "defgen", "property-based testing of the layout validator against an 
     "All 22 620 sequences of <= 4 fields over 1/2/4/8-byte scalars and length-1/3 arrays (auto_pad on and off, also as array element), a 512-case "
     "size-boundary table around 65535, generated layout programs with nested structs/struct arrays/reuse; accepted definitions must be naturally "
     "aligned with only char padding inserted, user fields unchanged, size = sum of fields = natural sizeof (ctypes, gcc); auto_pad off accepts "
-    "exactly the layouts that need no padding; > 65535 bytes rejected. Exploration level (exhaustive for the enumerated sub-domain).",
+    "exactly the layouts that need no padding; > 65535 bytes rejected; histories of closures on one Parser object equal fresh parses; explicit switches win over compiler_options; padding is identified by position (user fields may be named like padding). Exploration level (exhaustive for the enumerated sub-domain).",
     PARSER_NOTE, "DESIGN.md 4 C11")
 add("C12", "defgen", "property-based testing with single injected conflicts (complete kinds x placements table) and generated conflict-free import graphs",
     "The complete table of 804 (conflict kind x placement x variant) cases - each must raise the corresponding error class - plus generated "
     "conflict-free closures over every import-graph shape (chains, trees, diamonds, repeats, alternative spellings, cycles), which must parse and "
-    "register exactly the union of their definitions once. Exploration level.", PARSER_NOTE, "DESIGN.md 4 C12")
+    "register exactly the union of their definitions once; parse histories on one Parser object and user files named like the package's core definition file are included. Exploration level.", PARSER_NOTE, "DESIGN.md 4 C12")
 add("C13", "defgen", "metamorphic property testing of the version hash (relocation / noise invariance, single-edit sensitivity, cross-process determinism) + differential comparison of the hash constants in the four outputs + wire capture of Client.send_message",
     "Generated closures with single edits (rename, id, field rename/type/insert/delete/reorder, signal<->message) must change the digest; relocation, "
     "import reordering, comments and unrelated definitions must not; two fresh processes with different hash seeds and directories agree; the "
     "8 hex digits in the Python/C/JavaScript/MATLAB outputs equal the parser's digest; headers sent by a real Client carry type_hash in the "
-    "version field. Exploration level.", PARSER_NOTE + " The client's _sock/_connected are set directly to capture sent headers on a socketpair.", "DESIGN.md 4 C13")
+    "version field (send_message and send_signal, also after the id was registered again). One open finding (a message written `fields: OTHER` does not follow edits of OTHER) is listed in KNOWN_FINDINGS.txt. Exploration level.", PARSER_NOTE + " The client's _sock/_connected are set directly to capture sent headers on a socketpair.", "DESIGN.md 4 C13")
 
 PLANNED = {}
 
